@@ -287,6 +287,29 @@ Proof.
   - exfalso. revert H. by vm_compute.
 Qed.
 
+Lemma lookup_mk_dict_notin ks vs (k : list (list N)) : k ∉ ks → mk_dict ks vs !! k = None.
+Proof.
+  revert vs. induction ks as [|k' ks IH]; intros vs Hk; [done|].
+  apply not_elem_of_cons in Hk as [Hne Hk]. destruct vs as [|v vs]; [done|]. simpl.
+  destruct (cell v); [rewrite lookup_insert_ne by done|]; by apply IH.
+Qed.
+
+Lemma allowed_diff_all a b : allowed_diff a b ex_all.
+Proof. intros k kd _. destruct kd; set_solver. Qed.
+
+(* the hypotheses of merge_complete hold of the same triple *)
+Example ex_complete_hyps :
+  allowed_diff ex_a ex_o ex_all ∧ allowed_diff ex_a ex_t ex_all ∧ ¬ double_remove ex_a ex_o ex_t.
+Proof.
+  split; [apply allowed_diff_all|]. split; [apply allowed_diff_all|].
+  intros (k & Ha & Ho & Ht).
+  destruct (decide (k ∈ ex_ks)) as [Hin|Hnin].
+  - unfold ex_ks in Hin. rewrite !elem_of_cons, elem_of_nil in Hin.
+    destruct Hin as [->|[->|[->|[->|[]]]]]; vm_compute in Ha, Ho, Ht;
+      try discriminate; by destruct Ha.
+  - unfold ex_a in Ha. rewrite lookup_mk_dict_notin in Ha by done. by destruct Ha.
+Qed.
+
 (* a conflict (both change a differently), a policy refusal, a double removal: MergeError *)
 Example ex_errors :
   enc_res ex_ks (merge_ ex_a ex_o (mk_dict ex_ks [7; 3; 4; 0]) ex_all) = VL [VN 0; VN 6] ∧
